@@ -49,7 +49,13 @@ FrozenClauses(e) ==
     << <<"P08.noraise", e.exc = "">>,
        <<"P08.frozen", e.exc = "" => (e.assignable = <<>> /\ ~e.changed)>>,
        <<"P08.hashable", e.exc = "" => e.hashable>>,
-       <<"P08.identical_code_equal_data", e.exc = "" => (e.twice_eq /\ e.twice_hash)>> >>
+       <<"P08.identical_code_equal_data", e.exc = "" => (e.twice_eq /\ e.twice_hash)>>,
+       \* the same program by different routes (decode, JSON load, hand construction with new objects everywhere,
+       \* re-decoding its own code; the normalised forms of those): equal data, and any two equal values hash alike
+       \* and encode to identical code objects
+       <<"P08.routes_equal", e.exc = "" => e.route_uneq = <<>>>>,
+       <<"P08.routes_hash", e.exc = "" => e.route_hash_bad = <<>>>>,
+       <<"P08.equal_implies_identical", e.exc = "" => e.route_code_bad = <<>>>> >>
 
 \* "perturb": data decoded from two real code objects that differ in exactly one attribute.
 \* p = <<what, equal, hash equal, to_code identical, is a constant swap>>
